@@ -190,7 +190,7 @@ static void make_optimal(Tape &t, Model &m, int big, int degeneracy, GenLP &out)
 static void base_shape(Tape &t, const GenOpts &o, Model &m, int big, bool finite_boxes = false) {
   m = Model();
   m.objsense = t.coin() ? -1 : 1;
-  int n = 1 + (int)t.below((uint32_t)o.maxn), mm = (int)t.below((uint32_t)o.maxm + 1);
+  int n = std::max(1, o.minn) + (int)t.below((uint32_t)std::max(1, o.maxn - std::max(1, o.minn) + 1)), mm = o.minm + (int)t.below((uint32_t)std::max(1, o.maxm - o.minm + 1));
   for (int j = 0; j < n; j++) {
     Col c;
     rand_box(t, big, c.lo, c.up, finite_boxes);
